@@ -137,6 +137,9 @@ VARIANTS = [
          edits=[(CORE, "            \"sliced_inds\",\n            \"preprocessing\",\n        ):", "            \"sliced_inds\",\n            \"preprocessing\",\n            \"already_optimized\",\n        ):"),
                 (CORE, "        for attr in (\"info\", \"already_optimized\"):", "        for attr in (\"info\",):")],
          expect=("C04-COPY", "already_optimized")),
+    dict(name="twin: rebuild loop over a traversal bound to a local", kind="twin", file=CORE,
+         old="        for p, l, r in tree.traverse():\n            if ind in tree.get_legs(l) or ind in tree.get_legs(r):",
+         new="        bottom_up = tuple(tree.traverse())\n        for p, l, r in bottom_up:\n            if ind in tree.get_legs(l) or ind in tree.get_legs(r):"),
 ]
 for v in VARIANTS:
     v.pop("edits", None) if v.get("edits") is None else None
